@@ -97,6 +97,11 @@ int Wave_File::read(const std::string& filename)
 			pos++;
 	}
 	free(filebuf);
+	if(data.size() == 0)
+	{
+		fprintf(stderr,"No format chunk found in '%s'\n", filename.c_str());
+		return -1;
+	}
 	return 0;
 }
 
